@@ -92,12 +92,15 @@ func Judge(stmts []*N) *Verdict {
 		return v
 	}
 	gotTrace := canonTrace(host.Trace)
-	var firstDetail, firstClause string
+	var firstDetail, firstClause, unspecUnder string
 	for i, cfg := range AllCfgs() {
 		out := base
 		if i > 0 {
 			out = Run(stmts, cfg, ModelBudget)
 			if out.Unspecified != "" {
+				// under this admitted reading the program leaves the specified domain: if no other
+				// reading explains the run, nothing can be said about it
+				unspecUnder = out.Unspecified
 				continue
 			}
 		}
@@ -111,6 +114,10 @@ func Judge(stmts []*N) *Verdict {
 		if i == 0 {
 			firstClause, firstDetail = clause, detail
 		}
+	}
+	if unspecUnder != "" {
+		v.Excluded = "under an admitted reading of the under-specified choices: " + unspecUnder
+		return v
 	}
 	v.Clause, v.Detail = firstClause, firstDetail
 	return v
